@@ -115,8 +115,47 @@ func genC19Products(g *gen) {
 	}
 }
 
+// products with destination tensors (WithReuse, WithIncr, both): the destination is the caller's tensor - it must come
+// back holding the product and stay the caller's (never handed to the library's pool), whatever is created afterwards
+func genC19ProductDests(g *gen) {
+	for _, dt := range []string{"f64", "f32"} {
+		for _, pool := range []string{"pool on", "pool off"} {
+			for _, op := range []string{"dot", "mv", "mm", "outer"} {
+				for _, via := range []string{"fn", "meth"} {
+					if op == "dot" && via == "meth" {
+						continue
+					}
+					for _, mode := range []string{"reuse", "incr", "both"} {
+						a, b, exp := "3,4", "4,3", "3,3"
+						switch op {
+						case "dot":
+							a, b, exp = "4", "4,3", "3"
+						case "mv":
+							a, b, exp = "3,4", "4", "3"
+						case "outer":
+							a, b, exp = "4", "4", "4,4"
+						}
+						steps := []string{"vset=2", pool, fmt.Sprintf("new %s %s C", dt, a), fmt.Sprintf("new %s %s C", dt, b),
+							fmt.Sprintf("new %s %s C", dt, exp), fmt.Sprintf("new %s %s C", dt, exp)}
+						opts := map[string]string{"reuse": "reuse=$2", "incr": "incr=$2", "both": "reuse=$2 incr=$3"}[mode]
+						steps = append(steps, fmt.Sprintf("la %s %s $0 $1 %s", op, via, opts))
+						// $4: the returned tensor; then pool activity: new tensors and views get their headers from the pool
+						steps = append(steps, "dump $2", "dump $3", fmt.Sprintf("new %s %s C", dt, exp), fmt.Sprintf("slice $5 %s", map[string]string{"3": "0:2", "3,3": "0:2,0:2", "4,4": "1:3,0:2"}[exp]),
+							fmt.Sprintf("new %s 2,2 C", dt), "memset $5", "memset $7", "gc", fmt.Sprintf("new %s 2,3 C", dt), "T $8 1,0")
+						for v := 0; v < 9; v++ {
+							steps = append(steps, fmt.Sprintf("dump $%d", v))
+						}
+						g.emit(steps...)
+					}
+				}
+			}
+		}
+	}
+}
+
 func genC19(g *gen) {
 	genC19Products(g)
+	genC19ProductDests(g)
 	nprog := 400
 	maxLen := 40
 	if g.thorough() {
